@@ -6,9 +6,13 @@ MCOps == CASE Scenario = 1 -> {"a", "b", "c"}
            [] Scenario = 3 -> {"a", "b", "c"}
            [] Scenario = 4 -> {"a", "b"}
            [] Scenario = 5 -> {"a", "b", "c", "d"}
+           [] Scenario = 6 -> {"a", "b"}
+           [] Scenario = 7 -> {"a", "b", "c"}
 MCKind == CASE Scenario = 1 -> [o \in {"a", "b", "c"} |-> CASE o = "a" -> "set" [] o = "b" -> "del" [] OTHER -> "get"]
             [] Scenario = 2 -> [o \in {"a", "b", "c"} |-> CASE o = "a" -> "set" [] o = "b" -> "setex" [] OTHER -> "get"]
             [] Scenario = 3 -> [o \in {"a", "b", "c"} |-> CASE o = "a" -> "del" [] o = "b" -> "get" [] OTHER -> "get"]
             [] Scenario = 4 -> [o \in {"a", "b"} |-> CASE o = "a" -> "del" [] OTHER -> "get"]
             [] Scenario = 5 -> [o \in {"a", "b", "c", "d"} |-> CASE o = "a" -> "set" [] o = "b" -> "del" [] o = "c" -> "get" [] OTHER -> "get"]
+            [] Scenario = 6 -> [o \in {"a", "b"} |-> CASE o = "a" -> "getdel" [] OTHER -> "get"]
+            [] Scenario = 7 -> [o \in {"a", "b", "c"} |-> CASE o = "a" -> "getdel" [] o = "b" -> "set" [] OTHER -> "get"]
 =============================================================================
